@@ -1,6 +1,7 @@
 #!/bin/sh
 # usage: mutation_recheck.sh <mutant-id>...  -- re-runs phase 2 for the given mutants against /repo's current working tree
 # (HEAD plus uncommitted contract edits); prints "<id> CAUGHT|MISSED <site> <operator> [:: obligations]".
+jq -r '.findings[] | select(.status=="open") | .obligation' /verif/known_findings.json | sort -u > /tmp/rosvc_known_open.txt
 export GOFLAGS=-mod=mod GOPROXY=off GOSUMDB=off GOTOOLCHAIN=local
 OUT=/verif/mutation
 B=$(mktemp -d /tmp/mutbase.XXXXXX); git -C /repo archive HEAD | tar -x -C $B; cp /repo/verif_contracts.go $B/
@@ -14,7 +15,7 @@ one() {
     ALL|"") ONLY="";;
     *) ONLY="-only $A";;
   esac
-  out=$(timeout 1500 /verif/bin/rosvc fn -repo $W $ONLY 2>&1 | grep -E "^   (refuted|undischarged|broken|unknown|timeout) " | grep -v "writeWithMeta.lastcas" | awk '{print $2}' | head -4 | tr '\n' ' ')
+  out=$(timeout 1500 /verif/bin/rosvc fn -repo $W $ONLY 2>&1 | grep -E "^   (refuted|undischarged|broken|unknown|timeout) " | grep -v -F -f /tmp/rosvc_known_open.txt | awk '{print $2}' | head -4 | tr '\n' ' ')
   if [ -z "$out" ]; then echo "$id MISSED $desc"; else echo "$id CAUGHT $desc :: $out"; fi
   rm -rf $W
 }
